@@ -589,6 +589,12 @@ func (em *emitter) emitAssignmentNode(node *ast.Assignment) {
 			}
 			typ := em.typ(v.Expr)
 			reg := em.emitExpr(v.Expr, typ)
+			if reg < 0 {
+				// The pointer is in an indirect variable.
+				tmp := em.fb.newRegister(reflect.Pointer)
+				em.changeRegister(false, reg, tmp, typ, typ)
+				reg = tmp
+			}
 			addresses[i] = em.addressPtrIndirect(reg, typ, pos, node.Type)
 		default:
 			panic(internalError("unexpected"))
